@@ -2,7 +2,7 @@
    Only the property theorems, closed by `exact`, with their assumptions and non-vacuity examples. *)
 From Coq Require Import List NArith ZArith Bool Ring Reals Lra.
 From QI Require Import Base.ListAux Base.Scalar Model.Outcome Model.Validate Model.Gates Model.OpSeq Model.Qft Spec.Embed
-  Proofs.C04 Proofs.C16a Run.RInst Run.ZInst.
+  Proofs.C04 Proofs.C16a Proofs.C16exp Proofs.C16b Proofs.C16c Run.RInst Run.ZInst.
 Import ListNotations.
 Open Scope N_scope.
 
@@ -42,6 +42,40 @@ Proof.
   intros par n qs v Hq Hl. split; [exact (iqft_after_qft rops rops_ring cp_real H Hc par n qs v Hq Hl)|exact (qft_after_iqft rops rops_ring cp_real H Hc par n qs v Hq Hl)].
 Qed.
 Print Assumptions C16_inverse_real.
+
+(* THE DFT.  For every register width n, every list qs of m >= 1 distinct qubits below n (any subset, any order) and every
+   basis state |a> of the register, on either CPU path: the gate list of Subroutine::qft(qs) succeeds and the amplitude
+   it leaves at basis index x is
+        (1/sqrt 2)^m * omega^(J(a on qs) * J(x on qs))   if x and a agree on every qubit outside qs,   0 otherwise,
+   where J reads the listed qubits with the FIRST listed qubit as the most significant bit and omega = cp (m-1) is the
+   root e^{i pi / 2^(m-1)} = e^{2 pi i / 2^m}.  That is column a of N^(-1/2) sum_k exp(2 pi i j k / N) |k><j| on the
+   sub-register, identity on the other qubits; linearity (C04) extends it to every input state.
+   cp k stands for e^{i pi / 2^k}: the only facts used are the ring laws, cp 0 = -1 and (cp (k+1))^2 = cp k
+   (h = 1/sqrt 2 enters only through the factor h^m). *)
+Theorem C16_qft_is_dft :
+  forall (T : Type) (O : sops T), ring_of O -> forall cp : nat -> T * T,
+  cp 0%nat = cneg O (c1 O) -> (forall k, cmul O (cp (S k)) (cp (S k)) = cp k) ->
+  forall par n qs a, qubits_ok n qs -> (1 <= List.length qs)%nat -> a < 2 ^ n ->
+  exists v', run_ops O par (qft_ops O cp qs) (mkState n (basis_vec O n a)) = Ok (mkState n v') /\ List.length v' = N.to_nat (2 ^ n) /\
+    forall x, x < 2 ^ n ->
+      get (c0 O) v' x = if agree_off qs x a
+                        then cmul O (hpow O (List.length qs)) (wpow O cp (List.length qs) (J (bitsof a qs) * J (bitsof x qs)))
+                        else c0 O.
+Proof. exact @qft_basis_is_dft. Qed.
+Print Assumptions C16_qft_is_dft.
+
+(* the hypotheses about cp hold for the actual angles over the reals *)
+Theorem C16_real_roots :
+  cp_real 0%nat = cneg rops (c1 rops) /\ (forall k, cmul rops (cp_real (S k)) (cp_real (S k)) = cp_real k).
+Proof.
+  split.
+  - unfold cp_real, cneg, c1. cbn [fst snd rops sopp s1 s0 pow]. replace (PI / 1)%R with PI by field. rewrite cos_PI, sin_PI. f_equal; lra.
+  - intros k. unfold cp_real, cmul. cbn [fst snd rops sadd smul ssub].
+    replace (PI / 2 ^ k)%R with (2 * (PI / 2 ^ S k))%R.
+    2:{ cbn [pow]. field. apply pow_nonzero. lra. }
+    rewrite cos_2a, sin_2a. f_equal; ring.
+Qed.
+Print Assumptions C16_real_roots.
 
 (* the gate lists themselves: iqft is qft's stages reversed with every angle negated, the swaps in the same order *)
 Theorem C16_iqft_gate_list :
